@@ -147,7 +147,9 @@ class Directive(Base):
     ]
 
     @show_result
-    def __new__(cls, string: Union[str, FortranReaderBase], parent_cls=None):
+    def __new__(
+        cls, string: Union[str, FortranReaderBase], parent_cls=None, _deepcopy=False
+    ):
         """
         Create a new Directive instance.
 
@@ -155,10 +157,14 @@ class Directive(Base):
         :param string: (source of) Fortran string to parse.
         :param parent_cls: the parent class of this object.
         :type parent_cls: :py:type:`type`
+        :param bool _deepcopy: whether this object is being created by a \
+            deep copy or unpickling (in which case no matching is done).
 
         """
         from fparser.common import readfortran
 
+        if _deepcopy:
+            return object.__new__(cls)
         if isinstance(string, readfortran.Comment):
             # Inline comments cannot be directives.
             if string.inline:
@@ -209,6 +215,14 @@ class Directive(Base):
         self.items = [comment.comment]
         self.item = comment
 
+    def __getnewargs__(self):
+        """
+        :returns: the arguments for __new__() when this object is copied \
+            or unpickled (there is no 'string' attribute to pass on).
+        :rtype: tuple[NoneType, NoneType, bool]
+        """
+        return (None, None, True)
+
     def tostr(self) -> str:
         """
         :returns: this directive as a string.
@@ -224,7 +238,7 @@ class Comment(Base):
     subclass_names = []
 
     @show_result
-    def __new__(cls, string, parent_cls=None):
+    def __new__(cls, string, parent_cls=None, _deepcopy=False):
         """
         Create a new Comment instance.
 
@@ -233,10 +247,14 @@ class Comment(Base):
         :type string: str or :py:class:`FortranReaderBase`
         :param parent_cls: the parent class of this object.
         :type parent_cls: :py:type:`type`
+        :param bool _deepcopy: whether this object is being created by a \
+            deep copy or unpickling (in which case no matching is done).
 
         """
         from fparser.common import readfortran
 
+        if _deepcopy:
+            return object.__new__(cls)
         if isinstance(string, readfortran.Comment):
             # We were after a comment and we got a comment. Construct
             # one manually to avoid recursively calling this __new__
@@ -269,6 +287,14 @@ class Comment(Base):
         """
         self.items = [comment.comment]
         self.item = comment
+
+    def __getnewargs__(self):
+        """
+        :returns: the arguments for __new__() when this object is copied \
+            or unpickled (there is no 'string' attribute to pass on).
+        :rtype: tuple[NoneType, NoneType, bool]
+        """
+        return (None, None, True)
 
     def tostr(self):
         """
